@@ -79,6 +79,8 @@ using A_AE = Tr<false, false, false, true, false>;
 using A_NP = Tr<false, false, false, false, false>;
 using A_PP = Tr<true, true, true, false, false>;
 using A_NPS = Tr<false, false, false, false, true>;  // non-propagating + select_on_container_copy_construction
+using A_XNP = Tr<false, false, false, false, false, true>;  // non-propagating, explicit converting constructor
+using A_XPP = Tr<true, true, true, false, false, true>;     // propagating, explicit converting constructor
 using A_T000 = A_NP;
 using A_T001 = Tr<false, false, true, false, false>;
 using A_T010 = Tr<false, true, false, false, false>;
